@@ -239,4 +239,3 @@ def rules(ctx):
         Rule("R05.c", "every binder lives in a scope opened and closed by its own construct (or is the block-local definition, inserted after its initialiser)", 5, r05c),
         Rule("R05.d", "lambdas and comptime blocks save/restore scopes, params and labels on every path; no capture of the enclosing scope", 12, r05d),
     ]
-READY = False
